@@ -139,7 +139,7 @@ def run(tier):
             print("VIOLATION property=%s replay=%s" % (PID, path))
             print("  renaming %s: %s (the same grammar with ordinary names is accepted and compiles)" % (name, what))
     import json, os
-    evp = os.path.join(K.VERIF, "evidence", PID + ".json")
+    evp = K.evidence_path(PID)
     ev = json.load(open(evp))
     ev["coverage"]["compile_differential"] = {k: {"accepted": v["accepted"], "compiles": v["compiles"]} for k, v in comp.items()}
     ev["assumptions"].append("compile differential (grammar parameter and bindings renamed into `__`-prefixed / internal-looking / `v`,`e` names): observed with rustc, not a solver verdict")
